@@ -27,6 +27,7 @@ type SrvCfg struct {
 	MaxFileSize int64
 	MaxHandles  int
 	Async       bool // ExportOptions.Async ("allow async writes"): must not weaken what a FILE_SYNC reply promises
+	KeepStale   bool // the client keeps using a handle after the object at its path was replaced (no re-LOOKUP)
 	ViaConn     bool // send every request over ONE record-marking connection served by the real connection loop (instead of calling HandleCall per request)
 }
 
@@ -35,6 +36,9 @@ func (c SrvCfg) String() string {
 		c.DirCache, c.Neg, c.ReadOnly, c.Squash, c.Transfer, c.MaxFileSize, c.Async)
 	if c.ViaConn {
 		s += " one-connection"
+	}
+	if c.KeepStale {
+		s += " client-keeps-stale-handles"
 	}
 	return s
 }
@@ -55,6 +59,7 @@ type World struct {
 	handles   map[string]uint64 // what the client knows: path -> handle
 	inoAt     map[string]uint64 // identity of the object each known handle was obtained for
 	peer      *Peer             // ViaConn: the one connection all requests travel on
+	handleBad []string          // handles that did not resolve to the path they were handed out for
 	keepStale bool              // keep using handles whose object was replaced (default: re-LOOKUP like a client after ESTALE)
 	trace     []string          // the run as driver lines for the Lean server model ("srv ...")
 	traceWant []string          // what the model must answer to each line
@@ -66,7 +71,7 @@ func newWorldOn(fs *RefFS, cfg SrvCfg) *World {
 	if cfg.Squash == "" {
 		cfg.Squash = "none"
 	}
-	w := &World{cfg: cfg, fs: fs, handles: map[string]uint64{}, inoAt: map[string]uint64{}, step: time.Millisecond}
+	w := &World{cfg: cfg, fs: fs, handles: map[string]uint64{}, inoAt: map[string]uint64{}, step: time.Millisecond, keepStale: cfg.KeepStale}
 	absnfs.VerifSetClock(0)
 	s, err := newSrv(fs, cfg.opts())
 	must(err)
@@ -194,6 +199,12 @@ func (w *World) inoOf(p string) uint64 {
 func (w *World) learn(p string, h uint64) {
 	w.handles[p] = h
 	w.inoAt[p] = w.inoOf(p)
+	// what the server itself thinks the value names, right after handing it out for p
+	if got, ok := absnfs.VerifHandlePath(w.srv.NFS, h); !ok || got != p {
+		if len(w.handleBad) < 4 {
+			w.handleBad = append(w.handleBad, fmt.Sprintf("handle %d was handed out for %q, the table resolves it to %q (live=%v)", h, p, got, ok))
+		}
+	}
 }
 
 func (w *World) handleFor(p string, cred Cred) (uint64, bool) {
@@ -280,7 +291,8 @@ type SOp struct {
 	Data   []byte
 	Mask   uint32
 	Cred   Cred
-	Stable *uint32 // WRITE stable_how (default FILE_SYNC)
+	Stable *uint32    // WRITE stable_how (default FILE_SYNC)
+	Guard  *[2]uint32 `json:",omitempty"` // SETATTR sattrguard3: the ctime the client believes the object has
 }
 
 func (o SOp) String() string {
@@ -319,6 +331,9 @@ func (o SOp) String() string {
 	}
 	if o.Sa.Size != nil {
 		s += fmt.Sprintf(" size=%d", *o.Sa.Size)
+	}
+	if o.Guard != nil {
+		s += fmt.Sprintf(" guard-ctime=%d.%d", o.Guard[0], o.Guard[1])
 	}
 	if o.Cred.Flavor == 1 {
 		s += fmt.Sprintf(" as=%d:%d", o.Cred.UID, o.Cred.GID)
@@ -409,7 +424,7 @@ func (w *World) do(o SOp) SRes {
 	case "access":
 		out.Reply, out.Res = w.nfs(4, cred, cat(fh(h), u32(o.Mask)))
 	case "setattr":
-		out.Reply, out.Res = w.nfs(2, cred, argSetattr(h, o.Sa, nil))
+		out.Reply, out.Res = w.nfs(2, cred, argSetattr(h, o.Sa, o.Guard))
 	case "read":
 		out.Reply, out.Res = w.nfs(6, cred, argRead(h, o.Off, o.Count))
 	case "write":
